@@ -62,7 +62,7 @@ def sheet_case(draw, max_tasks=8):
     fields = draw(st.one_of(st.none(), st.lists(st.sampled_from(FIELDS), min_size=1, max_size=7)))
     theme = draw(st.one_of(st.none(), st.fixed_dictionaries({'level_colors': st.lists(st.sampled_from(THEME_COLORS), max_size=8)}),
                            st.fixed_dictionaries({'level_colors': st.lists(st.sampled_from(THEME_COLORS), max_size=8), 'header_color': st.sampled_from(THEME_COLORS)})))
-    return dict(spec=spec, recv=draw(st.sampled_from(['wbs', 'wbs-repr', 'task', 'task-repr', 'roots', 'children', 'query', 'tasks-list'])),
+    return dict(spec=spec, recv=draw(st.sampled_from(['wbs', 'wbs-repr', 'task', 'task-repr', 'roots', 'children', 'query', 'tasks-list', 'all_children', 'predecessors', 'roots-repr'])),
                 of=draw(st.integers(0, 30)), fields=fields, children=draw(st.booleans()), theme=theme)
 
 
@@ -117,6 +117,12 @@ def check(case, exclude=True):
             target, given = w.roots, [objs[i] for i in m.roots]
         else:
             target, given = objs[owner].children, [objs[i] for i in m.children[owner]]
+    elif recv == 'all_children':
+        target, given = objs[pick].all_children, list(objs[pick].all_children)
+    elif recv == 'predecessors':
+        target, given = objs[pick].predecessors, list(objs[pick].predecessors)
+    elif recv == 'roots-repr':
+        target, given = w.roots, [objs[i] for i in m.roots]
     elif recv == 'query':
         target = w.tasks(lambda t: t.id % 2 == 1)
         given = [objs[i] for i in m.dfs() if i % 2 == 1]
